@@ -546,6 +546,12 @@ OPTIONAL_FIELD_SOURCES = [
 ]
 
 
+# literals whose source text holds escaped backslashes: a binding is code, not a regular-expression replacement string
+ESCAPE_SOURCES = [
+    "a = f('x\\\\ny', 1)\nb = f(b'\\\\x00', 2)\nc = g('C:\\\\temp\\\\new')\n",
+    "print(sub('\\\\d+', '\\\\g<0>', s))\nq = sub('\\\\1', r'\\1', t)\n",
+    "p = join('a\\\\b', \"c\\\\t\")\nr = join('plain', 'n\\n')\n",
+]
 DIRECTED_PATTERNS = {
     "total = sum(x * x for x in items)\n": ["({{a}} for x in items)", "({{a}} for {{b}} in {{c}})", "(x * x for x in {{c}})"],
     "print(any(v for v in vs))\nu = (v for v in vs)\n": ["(v for v in {{c}})", "({{a}} for {{a}} in vs)"],
@@ -583,16 +589,22 @@ def run_shard(spec):
                      sample={"pattern": pattern, "repl": repl, "source": source})
             acc.fails(fails)
             return
-        source = data.draw(st.sampled_from(OPTIONAL_FIELD_SOURCES)) if data.draw(st.integers(0, 14)) == 0 else data.draw(st.sampled_from(pool))
+        pick = data.draw(st.integers(0, 29))
+        source = data.draw(st.sampled_from(OPTIONAL_FIELD_SOURCES)) if pick < 2 else data.draw(st.sampled_from(ESCAPE_SOURCES)) if pick < 4 else data.draw(st.sampled_from(pool))
         tree = parses(source)
         if tree is None:
             return
         classes = []
+        if pick in (2, 3):
+            classes.append("escaped-backslash-literals")
+        if data.draw(st.integers(0, 3)) == 0 and source.endswith("\n") and parses(source.rstrip("\n")) is not None:
+            source = source.rstrip("\n")
+            classes.append("no-trailing-newline")
         if data.draw(st.integers(0, 5)) == 0:
             lines = source.split("\n")
             cand = [i for i, l in enumerate(lines) if l.strip() and "#" not in l and not l.rstrip().endswith(("\\", ",", "(", "[", "{"))]
             if cand:
-                i = data.draw(st.sampled_from(cand))
+                i = cand[-1] if data.draw(st.integers(0, 2)) == 0 else data.draw(st.sampled_from(cand))
                 lines[i] = lines[i] + "  # pyrefact: ignore"
                 cand_src = "\n".join(lines)
                 t2 = parses(cand_src)
